@@ -1157,7 +1157,10 @@ func stripScratch(s, scratch string) string { return strings.ReplaceAll(s, scrat
 // ---------------------------------------------------------------------------------------------
 
 func run(r *evid.Run) {
-	r.Rule("seeds = every non-golden .proto under bufformat/testdata + hand-written texts covering every AST node kind; " +
+	r.Rule("seeds = every non-golden .proto under bufformat/testdata + hand-written texts covering every AST node kind + generated option-value shape files " +
+		"(enclosing construct {top-level {} literal, nested <> literal, compact field options, array} x 19 value kinds (scalars, arrays, {} and <> literals: empty, 1 field, 2 fields, nested, inner separators) " +
+		"x ':' present/absent x separator {none, ',', ';'}); " +
+		"every undecorated seed also through the CLI: stdout, -d --exit-code, -w, and -o x {file, dir} x state of the target before the run {absent, formatted text, shorter, longer, unformatted input, is the input file}; " +
 		"for every seed: the undecorated text, and for EVERY token gap (before each token incl. EOF) x EVERY decoration of the " +
 		"alphabet {/*c*/ after prev token, //c after prev token, '//c */' after prev token, two-line /*c*/ after prev token, /*c*/ on own line, //c on own line, /*c*/ glued before next token, " +
 		"detached //c between blank lines, blank line, line break, ';', removal of the gap's whitespace} one variant; thorough adds every " +
